@@ -183,6 +183,19 @@ pub enum Fill {
     Zero,
     /// printable ASCII text
     Text,
+    /// random bytes whose last third is zero (what a preallocated, not fully written file
+    /// looks like; an implementation trimming "unused" zeros would shorten it)
+    ZeroTail,
+    /// zeros followed by random bytes
+    ZeroHead,
+    /// nothing but line terminators: LF, CR LF, CR in rotation
+    Lines,
+    /// bytes that look like the records of an index bucket ("\n<hex>\t{json}")
+    RecordLike,
+    /// the text of an integrity value ("sha256-....=")
+    DigestLike,
+    /// 0xff bytes (never valid UTF-8)
+    Ones,
 }
 
 /// A described (not stored) byte string: cheap to shrink and to serialise.
@@ -213,6 +226,52 @@ impl Blob {
                 // keep blobs with different salts distinct when non-empty
                 if self.len > 0 {
                     v[0] = (self.salt & 0xff) as u8;
+                }
+            }
+            Fill::ZeroTail | Fill::ZeroHead => {
+                let r = Blob { len: self.len, salt: self.salt, fill: Fill::Rand }.bytes();
+                let cut = self.len - self.len / 3;
+                v = r;
+                if self.fill == Fill::ZeroTail {
+                    for b in &mut v[cut..] {
+                        *b = 0;
+                    }
+                    if cut > 0 && v[cut - 1] == 0 {
+                        v[cut - 1] = 1;
+                    }
+                } else {
+                    let z = self.len / 3;
+                    for b in &mut v[..z] {
+                        *b = 0;
+                    }
+                    if z < self.len && v[z] == 0 {
+                        v[z] = 1;
+                    }
+                }
+            }
+            Fill::Lines => {
+                let pat: &[u8] = b"\n\r\n\r";
+                for i in 0..self.len {
+                    v.push(pat[(i + self.salt as usize) % pat.len()]);
+                }
+            }
+            Fill::Ones => {
+                v.resize(self.len, 0xff);
+                if self.len > 0 {
+                    v[self.len - 1] = 0x80 | (self.salt & 0x7f) as u8;
+                }
+            }
+            Fill::RecordLike | Fill::DigestLike => {
+                let seed = Blob { len: 12, salt: self.salt, fill: Fill::Rand }.bytes();
+                let unit: Vec<u8> = if self.fill == Fill::DigestLike {
+                    sri(Algo::Sha256, &seed).into_bytes()
+                } else {
+                    let json = format!("{{\"key\":\"k{}\",\"integrity\":\"{}\",\"time\":{},\"size\":12,\"metadata\":null}}", self.salt, sri(Algo::Sha256, &seed), self.salt);
+                    format!("\n{}\t{}", hexs(&digest_raw(Algo::Sha256, json.as_bytes())), json).into_bytes()
+                };
+                while v.len() < self.len {
+                    let take = unit.len().min(self.len - v.len());
+                    v.extend_from_slice(&unit[..take]);
                 }
             }
             Fill::Rand | Fill::Text => {
